@@ -117,6 +117,19 @@ var propStream = stats.Prop(R, "stream", genStream, checkStream)
 
 func TestStream(t *testing.T) { rapid.Check(t, propStream) }
 
+// Several handlers, each with its own channels and stream, in separate goroutines at the same time.
+func genStreamPar(t *rapid.T) StreamCase {
+	return StreamCase{
+		Stream: gen.AnyStream(t, gen.Weights{Valid: 8, Junk: 2, JunkD3: 1, Corrupt: 4, Truncated: 1, Near: 1, Raw: 1}, 10, 60),
+		InCap:  rapid.SampledFrom([]int{0, 64}).Draw(t, "inCap"),
+		OutCap: rapid.SampledFrom([]int{0, 8}).Draw(t, "outCap"),
+	}
+}
+
+var propParallel = stats.ParallelProp(R, "parallel", genStreamPar, checkStream, 4)
+
+func TestParallel(t *testing.T) { rapid.Check(t, propParallel) }
+
 // ---- single buffers
 
 type BufCase struct {
